@@ -97,6 +97,19 @@ def impl_init():
                 out.append([name, [x.version, [[bytes(h.name).hex(), bytes(h.value).hex()] for h in x.headers]]])
             except PacketError:
                 out.append([name, "PacketError"])
+        # ... and the caller's ONE packet object whose payload is replaced in place after a first parse: what is read is what it carries NOW
+        obj = SIP() / STCP(sport=40000, dport=8080, flags="PA") / SRaw(b"GET /earlier HTTP/1.0\r\nX-Earlier: 1\r\n\r\n")
+        try:
+            HTTPPacketSignature.from_packet(parse_packet(obj))
+        except PacketError:
+            pass
+        obj[SRaw].load = raw
+        try:
+            x = HTTPPacketSignature.from_packet(parse_packet(obj)) if raw else None
+            if x is not None:
+                out.append(["HTTPPacketSignature.from_packet (same object, payload replaced)", [x.version, [[bytes(h.name).hex(), bytes(h.value).hex()] for h in x.headers]]])
+        except PacketError:
+            out.append(["HTTPPacketSignature.from_packet (same object, payload replaced)", "PacketError"])
         return port, out
 
     def impl(c):
